@@ -89,6 +89,8 @@ class Obj:
         self.label = label
         self.fields = dict(fields or {})
         self.methods = dict(methods or {})
+        self.props = {}
+        self.setters = {}
         self.classes = list(classes or [label])
 
     def __repr__(self):
@@ -104,6 +106,24 @@ class ClassRef:
 
     def __repr__(self):
         return f"<class {self.name}>"
+
+
+def _expr_to_term(text: str):
+    """libcst.parse_expression for the shapes the renderers feed it: names and attribute chains."""
+    try:
+        node = ast.parse(text, mode="eval").body
+    except SyntaxError:
+        return None
+
+    def conv(n):
+        if isinstance(n, ast.Name):
+            return Term("Name", [n.id], {})
+        if isinstance(n, ast.Attribute):
+            inner = conv(n.value)
+            return None if inner is None else Term("Attribute", [], {"value": inner, "attr": Term("Name", [n.attr], {})})
+        return None
+
+    return conv(node)
 
 
 class Closure:
@@ -159,9 +179,11 @@ PURE = {
     "math.floor": math.floor, "math.ceil": math.ceil, "math.isinf": math.isinf, "math.isnan": math.isnan, "math.isfinite": math.isfinite,
     "math.trunc": math.trunc, "math.copysign": math.copysign, "math.sqrt": math.sqrt, "math.fabs": math.fabs, "math.isclose": math.isclose,
     "math.log": math.log, "math.exp": math.exp, "isclass": lambda x: isinstance(x, type), "inspect.isclass": lambda x: isinstance(x, type),
-    "issubclass": issubclass,
+    "issubclass": issubclass, "dir": dir, "map": map, "filter": filter, "reversed": reversed, "iter": iter, "next": next, "dict": dict, "frozenset": frozenset, "getattr": getattr, "hasattr": hasattr,
 }
-CONSTS = {"inf": math.inf, "math.inf": math.inf, "math.nan": math.nan, "math.pi": math.pi, "sys.float_info.min": sys.float_info.min,
+import builtins as _builtins  # noqa: E402
+
+CONSTS = {"builtins": _builtins, "inf": math.inf, "math.inf": math.inf, "math.nan": math.nan, "math.pi": math.pi, "sys.float_info.min": sys.float_info.min,
           "sys.float_info.max": sys.float_info.max, "sys.float_info.epsilon": sys.float_info.epsilon, "sys.maxsize": sys.maxsize}
 STR_METHODS = {"startswith", "endswith", "lstrip", "rstrip", "strip", "lower", "upper", "split", "rpartition", "partition", "replace", "join",
                "removeprefix", "removesuffix", "decode", "encode", "isdigit", "format", "count", "find", "is_integer", "real", "imag", "hex", "bit_length",
@@ -231,6 +253,11 @@ class Interp:
             mro = self.class_resolver(t, mod)
             if mro:
                 return ClassRef(t.split(".")[-1], mro)
+        if isinstance(e, ast.Name) and mod is not None and e.id in getattr(mod, "functions", {}) and e.id not in self.externs:
+            fn_, mod_ = mod.functions[e.id], mod
+            return lambda *a, **k: self.run_function(fn_, list(a), k, mod_)
+        if isinstance(e, ast.Name) and mod is not None and e.id in getattr(mod, "assigns", {}) and e.id not in CONSTS and e.id not in TYPES:
+            return self.ev(mod.assigns[e.id], {}, mod)
         if isinstance(e, ast.Name):
             if e.id in CONSTS:
                 return CONSTS[e.id]
@@ -254,6 +281,8 @@ class Interp:
             if isinstance(base, Term):
                 return base.get(e.attr)
             if isinstance(base, Obj):
+                if e.attr in base.props:
+                    return base.props[e.attr]()
                 if e.attr in base.fields:
                     return base.fields[e.attr]
                 if e.attr in base.methods:
@@ -414,6 +443,10 @@ class Interp:
                 return False
             return _guard(isinstance, args[0], typ)
         if self.ctor_prefixes and name.startswith(self.ctor_prefixes):
+            if name.endswith(".parse_expression") and args and isinstance(args[0], str):
+                t_ = _expr_to_term(args[0])
+                if t_ is not None:
+                    return t_
             return Term(name, args, kwargs)
         if name in self.externs:
             return self.externs[name](*args, **kwargs)
@@ -440,6 +473,8 @@ class Interp:
         fval = env.get(name)
         if isinstance(fval, Closure):
             return fval.interp.apply(fval, args, kwargs, mod)
+        if callable(fval) and not isinstance(fval, type):
+            return fval(*args, **kwargs)
         if name in PURE and not (isinstance(e.func, ast.Name) and e.func.id in env):
             return _guard(PURE[name], *args, **kwargs)
         if self.resolver is not None:
@@ -468,7 +503,16 @@ class Interp:
         for cdef, cmod in reversed(mro):
             for st in cdef.body:
                 if isinstance(st, (ast.FunctionDef,)):
-                    obj.methods[st.name] = (lambda fn, fmod: (lambda *a, **k: self.run_function(fn, [obj, *a], k, fmod)))(st, cmod)
+                    bound = (lambda fn, fmod: (lambda *a, **k: self.run_function(fn, [obj, *a], k, fmod)))(st, cmod)
+                    decos = [norm(d) for d in st.decorator_list]
+                    if "property" in decos or any(d.endswith("cached_property") for d in decos):
+                        obj.props[st.name] = bound
+                        obj.methods.pop(st.name, None)
+                    elif any(d.endswith(".setter") for d in decos):
+                        obj.setters[st.name] = bound
+                    else:
+                        obj.methods[st.name] = bound
+                        obj.props.pop(st.name, None)
                 elif isinstance(st, ast.AnnAssign) and isinstance(st.target, ast.Name) and st.value is not None:
                     try:
                         obj.fields[st.target.id] = self.ev(st.value, {}, cmod)
